@@ -309,7 +309,7 @@ func (c *Ctx) exitChecks(fr *frame, ct *Contract) {
 		// Postconditions are checked per return site when there are few of them
 		// (each query then sees one concrete path suffix instead of the ite-merge
 		// of all of them); the clause name records the site ordinal.
-		perReturn := len(live) > 1 && len(live) <= 12
+		perReturn := len(live) > 1 && len(live) <= 40
 		type site struct {
 			st      *State
 			results []T
@@ -668,7 +668,9 @@ func (fr *frame) contractCall(ct *Contract, callee *ssa.Function, cc *ssa.CallCo
 		for _, cl := range cls {
 			t, err := post.Bool(cl.Expr)
 			if err != nil {
-				c.unsupported("ensures %q of %s at call: %v", cl.Text, name, err)
+				// a postcondition that mentions the callee's locals is checked on the
+				// callee but cannot be used by callers: skipping it is sound
+				c.comment("ensures %q of %s not usable at this call: %v", trunc(cl.Text, 60), name, err)
 				continue
 			}
 			c.assume(st, Implies(guard, t))
